@@ -435,6 +435,9 @@ def run_search(ctx, shape_names, two_trees, max_items, unlimited, deadline):
         allowed = z3.If(cand_some, items & cand, items)
         n_ok = 0
         for f in finals:
+            if time.time() > deadline + 300:
+                results["unknown"].append("post-processing of the enumerated paths: engine deadline reached")
+                break
             results["paths"] += 1
             extra = [("count", count), ("search_k", sk), ("candidates_is_some", cand_some), ("set:candidates", cand)]
 
@@ -551,6 +554,9 @@ def run_monotone(ctx, shape_names, two_trees, max_items, budgets, deadline):
             finals = eng.run(fn, args, env=env, pc=pc, deadline=deadline, max_paths=20000)
             outs = []
             for f in finals:
+                if time.time() > deadline + 300:
+                    results["unknown"].append("post-processing of the enumerated paths: engine deadline reached")
+                    break
                 results["paths"] += 1
                 if f.status != "return" or not z3.is_true(z3.simplify(f.value.disc == BV(0, 64))):
                     # errors / panics / unknowns are bounded_search_wellformed's business; here they make
